@@ -100,6 +100,23 @@ func (s hangStore) Read(ctx context.Context, from eventbus.Offset, limit int) ([
 	return s.mem.Read(ctx, from, limit)
 }
 
+// countStore notes every Append call and how it ended: the oracle's "append attempts" and
+// "appends that failed" are what the store saw, not what the workload was expected to do.
+type countStore struct {
+	eventbus.EventStore
+	rec *h.Rec
+}
+
+func (s countStore) Append(ctx context.Context, ev *eventbus.Event) (eventbus.Offset, error) {
+	off, err := s.EventStore.Append(ctx, ev)
+	r := 0
+	if err != nil {
+		r = 1
+	}
+	s.rec.Add("append", r, 0, "")
+	return off, err
+}
+
 // ---- recording observer
 type tokKey struct{}
 
@@ -197,11 +214,11 @@ func (in *inst) Body() {
 	mem := eventbus.NewMemoryStore()
 	switch w.Persist {
 	case 1, 3:
-		opts = append(opts, eventbus.WithStore(mem))
+		opts = append(opts, eventbus.WithStore(countStore{mem, &in.rec}))
 	case 2:
-		opts = append(opts, eventbus.WithStore(failStore{mem}))
+		opts = append(opts, eventbus.WithStore(countStore{failStore{mem}, &in.rec}))
 	case 4:
-		opts = append(opts, eventbus.WithStore(hangStore{mem}), eventbus.WithPersistenceTimeout(time.Millisecond))
+		opts = append(opts, eventbus.WithStore(countStore{hangStore{mem}, &in.rec}), eventbus.WithPersistenceTimeout(time.Millisecond))
 	}
 	if w.Observer == 0 {
 		opts = append(opts, eventbus.WithObservability(recObs{&in.rec, &in.n}))
@@ -337,12 +354,26 @@ func (in *inst) Check(res *vrt.Result) []vrt.Violation {
 		}
 	}
 	publishes := len(pubIDs)
+	// append attempts and failures as the store saw them
 	attempts, failures := 0, 0
-	switch w.Persist {
-	case 1:
-		attempts = publishes
-	case 2, 4:
-		attempts, failures = publishes, publishes
+	for _, e := range evs {
+		if e.K == "append" {
+			attempts++
+			failures += e.A
+		}
+	}
+	// without a context that is cancelled under way the workload fixes them
+	if !w.CancelRace && !w.Cancel {
+		wantA, wantF := 0, 0
+		switch w.Persist {
+		case 1:
+			wantA = publishes
+		case 2, 4:
+			wantA, wantF = publishes, publishes
+		}
+		if attempts != wantA || failures != wantF {
+			bad("persist-attempts", fmt.Sprintf("the store saw %d append attempts, %d failed; the workload makes %d and %d (persist=%s)", attempts, failures, wantA, wantF, pmodes[w.Persist]))
+		}
 	}
 	if w.Observer == 0 {
 		count := func(k string) int {
@@ -530,6 +561,16 @@ func workloads(thorough bool) []workload {
 				}
 			}
 			l = append(l, workload{H: hs, Persist: 1, Observer: 0}, workload{H: hs, Observer: 0, TwoPublishers: true})
+		}
+	}
+	// two publishers on a persisting bus whose context is cancelled at an explored point: one
+	// may be inside the store while the other waits for it with a context that is cancelled
+	// meanwhile
+	for _, hs := range [][]int{{0}, {1}, {}} {
+		for _, p := range []int{1, 2} {
+			for _, obs := range []int{0, 1} {
+				l = append(l, workload{H: hs, Persist: p, Observer: obs, CancelRace: true, TwoPublishers: true})
+			}
 		}
 	}
 	// cancellation racing the dispatch of asynchronous invocations
